@@ -44,6 +44,8 @@ def var_tokens(key: str) -> Set[str]:
     return set(_var.findall(key))
 
 
+PURE_TYPE_PREDICATES = ('callable', 'inspect.ismethod', 'inspect.isfunction', 'inspect.isclass', 'inspect.iscoroutinefunction', 'inspect.isawaitable', 'inspect.iscoroutine',
+                        'asyncio.isfuture', 'asyncio.iscoroutinefunction', 'asyncio.iscoroutine', 'ismethod', 'isfunction', 'isclass', 'isfuture', 'iscoroutinefunction')
 PURE_BUILTINS = ('callable', 'isinstance', 'issubclass', 'len', 'bool', 'hasattr', 'type', 'id')
 
 
@@ -180,7 +182,9 @@ class Canon:
             return None
         if len(f.params) != 1:
             return None
-        return accessor_value(f)
+        # (the accessor as the view shows it: a private helper it delegates to -- ``return self._label_of(self._state)`` -- is inlined first)
+        v = accessor_value(f)
+        return v if v is not None else accessor_value(self.prog.view(f))
 
     def key(self, e: ast.expr) -> str:
         return norm(self.expr(e))
@@ -412,6 +416,9 @@ class FuncFacts:
             return all(isinstance(o, (ast.Is, ast.IsNot, ast.Eq, ast.NotEq, ast.In, ast.NotIn)) for o in e.ops) and all(isinstance(x, (ast.Name, ast.Constant)) for x in [e.left] + e.comparators)
         if isinstance(e, ast.Call) and isinstance(e.func, ast.Name) and e.func.id == 'isinstance' and len(e.args) == 2 and not e.keywords:
             return isinstance(e.args[0], ast.Name)
+        # one-argument type predicates of the standard library on a local (``is_method = inspect.ismethod(value)``): they look at the object, they call nothing of it
+        if isinstance(e, ast.Call) and len(e.args) == 1 and not e.keywords and isinstance(e.args[0], ast.Name) and norm(e.func) in PURE_TYPE_PREDICATES:
+            return True
         return False
 
     @staticmethod
